@@ -2799,7 +2799,7 @@ fn main() {
     }
     // (D) random fragmentation / lengths / everything
     let odd_chunks: Vec<usize> = (0..6).map(|_| 1 + r.below(10_000) as usize).collect();
-    let n_random = if thorough { 30000 } else { 1200 };
+    let n_random = if thorough { 30000 } else { 900 };
     for _ in 0..n_random {
         let chunk = match r.below(12) {
             // io::copy's 8 KiB buffer boundary, 64 KiB ± 1, odd sizes, anything up to 10000
@@ -3109,7 +3109,7 @@ fn main() {
     }
     // (H) high-level pullers
     let combos = [("tcp", "sync"), ("tcp", "async"), ("ws", "wsc")];
-    let hl_rounds = if thorough { 60 } else { 4 };
+    let hl_rounds = if thorough { 60 } else { 3 };
     for round in 0..hl_rounds {
         for &(srv, client) in &combos {
             for &comp in &[0u8, 1] {
